@@ -56,7 +56,8 @@ Definition is_char_at (buf : bytes) (at_ : nat) (ch : nat) : bool :=
 (** isStringAt: [at+len(s) > len(buf)] -> false, otherwise bytewise comparison; the
     bytewise comparison below fails exactly when it leaves the buffer.
     (The Go loop is [for i := range s], over the runes of s: bytewise for the ASCII patterns
-    used by scanSpaceToken; for the one non-ASCII pattern see [bom_at_go] below.) *)
+    used by scanSpaceToken; since commit 2ecf680 it is [for i := 0; i < len(s); i++], bytewise for
+    every pattern; see [bom_at_runewise_old] below for the difference.) *)
 Fixpoint is_string_at (buf : bytes) (at_ : nat) (s : bytes) : bool :=
   match s with
   | [] => true
@@ -89,17 +90,16 @@ Definition star_slash : bytes := [42; 47].     (* "*/" *)
 Definition slash_slash : bytes := [47; 47].    (* "//" *)
 Definition bom : bytes := [239; 187; 191].     (* EF BB BF: U+FEFF in UTF-8 *)
 
-(** isStringAt(buf, at, "\xef\xbb\xbf").
-    [bom_at_bytewise] is the intended test. [bom_at_go] is what the code does today: isStringAt
-    iterates with [for i := range s], which walks the RUNES of s; the pattern is a single rune, so
-    after the length check only its first byte (index 0) is compared. Every three bytes that start
-    with EF and lie inside the buffer are therefore taken for a byte order mark (reported to the
-    lead as a defect of the repair; Props/C16.v keeps a witness). The scanners use [bom_at]; the
-    proofs only need [bom_at_inside], which holds for both variants. *)
+(** isStringAt(buf, at, "\xef\xbb\xbf"): [bom_at], the bytewise test, is what the code does since
+    commit 2ecf680. [bom_at_runewise_old] documents the intermediate state of commit 0061363:
+    isStringAt iterated with [for i := range s], which walks the RUNES of s; the pattern is a single
+    rune, so after the length check only its first byte was compared and every three bytes starting
+    with EF inside a literal were taken for a byte order mark (found by this correspondence;
+    witness in TermProofs.v / Props/C16.v). *)
 Definition bom_at_bytewise (buf : bytes) (at_ : nat) : bool := is_string_at buf at_ bom.
-Definition bom_at_go (buf : bytes) (at_ : nat) : bool :=
+Definition bom_at_runewise_old (buf : bytes) (at_ : nat) : bool :=
   (at_ + 3 <=? List.length buf) && is_char_at buf at_ 239.
-Definition bom_at := bom_at_go.
+Definition bom_at := bom_at_bytewise.
 (** the six characters backslash u f e f f, most recent first (as pushed onto an accumulator) *)
 Definition bom_escape_rev : bytes := [102; 102; 101; 102; 117; 92].
 
